@@ -254,7 +254,10 @@ impl C05 {
                     match back {
                         Some(b) => {
                             typed_lax(ctx, "serde_round_trip", &b, &fo.src_type(), &fo.tgt_type(), &input);
-                            ctx.check(from_lax_raw(&b) == pf && lax_lens(&b) == plax_lens(&pf), "serde_round_trip/returns-the-same-diagram/value/any", || json!({"input": input(), "observed": show_lax(&from_lax_raw(&b))}));
+                            let got = from_lax_raw(&b);
+                            let norm = |q: &Vec<(usize, usize)>| { let mut v: Vec<(usize, usize)> = q.iter().map(|&(x, y)| (x.min(y), x.max(y))).collect(); v.sort(); v.dedup(); v.retain(|p| p.0 != p.1); v };
+                            // nodes, hyperedges and interfaces as written; the pending pairs as a set of unordered pairs
+                            ctx.check(got.w == pf.w && got.e == pf.e && got.s == pf.s && got.t == pf.t && norm(&got.q) == norm(&pf.q), "serde_round_trip/returns-the-same-diagram/value/any", || json!({"input": input(), "observed": show_lax(&got)}));
                         }
                         None => {
                             ctx.check(false, "serde_round_trip/defined/value/any", || json!({"input": input()}));
